@@ -15,6 +15,9 @@ type Config struct {
 	// preemption-bounding semantics); n>0 allows at most n such choices per
 	// execution (delay bounding).
 	MaxFree int
+	// MaxTotal, if > 0, bounds preemptions + free deviations + environment
+	// deviations together.
+	MaxTotal int
 	MaxExecs   int64 // stop after this many executions (0 = no cap); hitting it sets Stats.Capped
 	MaxSteps   int   // per-execution step limit (livelock horizon)
 }
@@ -108,6 +111,9 @@ func Explore(cfg Config, body func(), check func(r *Result) string) (Stats, *Fai
 						continue
 					}
 					if cfg.MaxFree > 0 && free+fr > cfg.MaxFree {
+						continue
+					}
+					if cfg.MaxTotal > 0 && pre+p+dev+e+free+fr > cfg.MaxTotal {
 						continue
 					}
 					np := make([]int, i+1)
